@@ -365,8 +365,17 @@ func (r *Runner) apply(op Op) *Mismatch {
 			f, err = st.Create(ctx, op.Key)
 			if err == nil {
 				off := 0
+				var scratch []byte // one buffer re-used for every Write and overwritten after it (Write must not retain p)
 				for _, s := range op.Split {
-					k, werr := f.Write(content[off : off+s])
+					if cap(scratch) < s {
+						scratch = make([]byte, s)
+					}
+					wb := scratch[:s]
+					copy(wb, content[off:off+s])
+					k, werr := f.Write(wb)
+					for i := range wb {
+						wb[i] = 0xEE
+					}
 					if werr != nil {
 						err = werr
 						break
